@@ -45,7 +45,9 @@ func (j *RemoveUnusedImportApp) Analysis() []models2.JFullIdentifier {
 
 		antlr.NewParseTreeWalker().Walk(listener, context)
 
-		nodes = append(nodes, listener.GetNodeInfo())
+		nodeInfo := listener.GetNodeInfo()
+		nodeInfo.Path = currentFile
+		nodes = append(nodes, nodeInfo)
 	}
 
 	return nodes
@@ -55,7 +57,11 @@ func (j *RemoveUnusedImportApp) Refactoring(resultNodes []models2.JFullIdentifie
 	for _, node := range resultNodes {
 		if node.Name != "" {
 			errorLines := BuildErrorLines(node)
-			removeImportByLines(currentFile, errorLines)
+			file := node.Path
+			if file == "" {
+				file = currentFile
+			}
+			removeImportByLines(file, errorLines)
 		}
 	}
 }
